@@ -181,6 +181,7 @@ class FormatMachine(MachineBase):
         if after is None:
             raise Violation(self.ROUNDTRIP_PROP, "%s.dump_wrote_nothing" % self.ROUNDTRIP_PROP, "no-file/%s" % self.FORMAT, {})
         text = after.decode("utf-8")
+        CTX.dump_hashes.append(_sha(text))
         if verdict == VALID:
             self.count("C06", ["valid-written", self.FORMAT, self.abstract(s)])
         self.check_canonical(text)
@@ -235,6 +236,7 @@ class FormatMachine(MachineBase):
         if verdict == INVALID:
             raise Violation("C06", "C06.invalid_object_written", "written/%s/%s" % (self.FORMAT, why),
                             {"why": why, "via": "dumps", "chars": len(text)})
+        CTX.dump_hashes.append(_sha(text))
         self.check_canonical(text)
         self.file_invariants(s, text, op)
         if verdict == VALID:
@@ -528,6 +530,8 @@ class FormatMachine(MachineBase):
                     raise Violation("C06", "C06.valid_object_refused", "refused/%s/%s" % (self.FORMAT, exc_class(e)),
                                     {"error": exc_class(e), "msg": str(e)[:160], "via": "cmp_slots"})
             compared += 1
+            for k, t in texts:
+                CTX.dump_hashes.append(_sha(t))
             self.count("C08", ["cmp", self.FORMAT, len(members), h64(key)])
             for k, t in texts[1:]:
                 if t != texts[0][1]:
@@ -558,6 +562,11 @@ class FormatMachine(MachineBase):
                 raise Violation("C08", "C08.repeated_dump_same_bytes", "repeat-differs/%s" % self.FORMAT,
                                 {"diff": _text_diff(texts[0], t)})
         return "same"
+
+
+def _sha(text):
+    import hashlib
+    return hashlib.sha256(text.encode("utf-8")).hexdigest()[:24]
 
 
 def _text_diff(a, b):
